@@ -752,6 +752,11 @@ fn to_array(mac: &[u8]) -> Option<[u8; 6]> {
     mac[0..6].try_into().ok()
 }
 
+#[cfg(feature = "verif-hooks")]
+pub fn verif_to_array(mac: &[u8]) -> Option<[u8; 6]> {
+    to_array(mac)
+}
+
 enum RunError {
     ListenError(std::io::Error),
     RecvError(std::io::Error),
